@@ -517,6 +517,53 @@ def ob_degenerate_rates(kind, label, x0):
     return Ob("C12.subst.gradient[%s,%s]" % (kind, label), "B", body, clause="gradient = derivative of the reported value where the rate matrix has repeated eigenvalues", funcs=FUNCS)
 
 
+def ob_bdsk_zero_sampling_epoch():
+    """birth-death skyline with an epoch in which the sampling proportion is exactly 0 and no tip was sampled (no sampling before a date: a
+    boundary value of the parameter that specifications use): the gradient of the other parameters is the derivative of the reported
+    value (central differences on fresh distributions)"""
+    def body():
+        from torchtree.evolution.bdsk import PiecewiseConstantBirthDeath as P, epidemiology_to_birth_death as e2b
+        t64 = lambda v: torch.tensor(v, dtype=torch.float64)
+        nh = t64([0.0, 1.0, 2.5, 3.5, 2.0, 4.0, 5.0])
+        base = {"R": [1.5, 1.2], "d": [1.5, 1.1], "s": [0.0, 0.3]}      # epoch 0 is the OLDEST one: every tip lies in the recent epoch
+
+        def value(R, d, s_):
+            lam, mu, psi = e2b(R, d, s_)
+            return P(lam, mu, psi, origin=t64([10.0])).log_prob(nh).sum()
+        R, d = t64(base["R"]).requires_grad_(True), t64(base["d"]).requires_grad_(True)
+        v = value(R, d, t64(base["s"]))
+        if not bool(torch.isfinite(v)):
+            raise Undecided("the scenario does not have a finite density: %r" % float(v))
+        v.backward()
+        bad, n = [], 0
+        for nme, par in (("R", R), ("d", d)):
+            for i in range(2):
+                h = 1e-6
+                vals = {k: list(x) for k, x in base.items()}
+                vals[nme][i] += h
+                up = float(value(t64(vals["R"]), t64(vals["d"]), t64(vals["s"])))
+                vals[nme][i] -= 2 * h
+                dn = float(value(t64(vals["R"]), t64(vals["d"]), t64(vals["s"])))
+                fd = (up - dn) / (2 * h)
+                g = float(par.grad[i])
+                n += 1
+                if not (g == g) or abs(g - fd) > 1e-5 * max(1.0, abs(fd)):
+                    bad.append("d/d %s[%d]: autograd %r, central difference of the reported value %.6f" % (nme, i, g, fd))
+        if bad:
+            raise Refuted("BDSK with sampling proportion 0 in an epoch without tips: " + "; ".join(bad[:3]), witness={"problems": bad}, confirmed=True,
+                          replay={"kind": "custom", "contract": "C12", "func": "replay_bdsk_zero_sampling_epoch", "args": {}})
+        return {"backend": "real autograd", "cases": n, "statement": "%d partial derivatives agree with central differences when one epoch has sampling proportion 0" % n}
+    return Ob("C12.bdsk.zero_sampling_epoch", "B", body, clause="gradient = derivative of the reported value at a zero sampling proportion (bounded)", funcs=FUNCS)
+
+
+def replay_bdsk_zero_sampling_epoch(args):
+    try:
+        ob_bdsk_zero_sampling_epoch().fn()
+    except Refuted as e:
+        return False, e.detail
+    return True, "held"
+
+
 def replay_degenerate_rates(args):
     try:
         ob_degenerate_rates(args["kind"], args["label"], args["x0"]).fn()
@@ -548,6 +595,7 @@ def obligations(tier, seed):
     obs.append(ob_underflow_gradient(True))
     obs.append(ob_late_requires_grad())
     obs.append(ob_linear_equal_knots())
+    obs.append(ob_bdsk_zero_sampling_epoch())
     for kind, label, x0 in (("HKY", "kappa=1", [1.0]), ("HKY", "kappa=2.5", [2.5]), ("GTR", "all rates 1/6", [1.0 / 6] * 6), ("GTR", "all rates 1", [1.0] * 6),
                             ("GTR", "distinct rates", [0.5, 1.0, 1.5, 0.7, 2.0, 1.0])):
         obs.append(ob_degenerate_rates(kind, label, x0))
